@@ -114,12 +114,11 @@ Proof.
     exists dm. split; [reflexivity|assumption]. }
   destruct (negb compressed); [now apply Hfin|].
   apply np_get_st.
-  destruct (ds_ts s1 =? 0); [now apply Hfin|].
+  destruct (negb (ds_hasts s1)); [now apply Hfin|].
   apply np_put_st.
   match goal with |- np _ _ ?st _ => set (s2 := st) end.
   assert (Hf2 : frame s s2).
-  { unfold s2. destruct Hf1 as [A B].
-    match goal with |- frame _ (if ?c then _ else _) => destruct c end; split; cbn; assumption. }
+  { unfold s2. destruct Hf1 as [A B]. split; cbn; assumption. }
   destruct (get_field (dm_gmn dm) c_fieldNumTimeStamp) as [p|] eqn:Eg; [|now apply Hfin].
   destruct (entry_sound _ _ _ Eg) as (md & _ & F).
   specialize (Hm (ef_known _ _ _ _ F)).
